@@ -91,7 +91,7 @@ def job_daily(job):
             ("outside-range", lambda: fitlib.daily_reporting(_stretch(rep, -45.0, 135.0))),
             ("baseline", lambda: fitlib.daily_baseline(df.copy()))]
     state = daily_state_of(m, True)
-    obs, js, m2 = c01lib.roundtrip_obs(DailyModel, m, sets, {"ignore_disqualification": True})
+    obs, js, m2, js2 = c01lib.roundtrip_obs(DailyModel, m, sets, {"ignore_disqualification": True})
     return {"state": state, "js": js, "obs": obs, "shapes": [s[1]["model_type"] for s in state["subs"]],
             "keys": [s[0] for s in state["subs"]], "developer_mode": bool(m.settings.developer_mode), "base": base}
 
@@ -109,7 +109,7 @@ def job_billing(job):
             ("outside-range", lambda: fitlib.billing_reporting(rmeter, pd.Series(np.linspace(-45.0, 135.0, len(rtemp)), index=rtemp.index))),
             ("baseline", lambda: fitlib.billing_baseline(meter, temp))]
     state = daily_state_of(m, True)
-    obs, js, m2 = c01lib.roundtrip_obs(BillingModel, m, sets, {"ignore_disqualification": True})
+    obs, js, m2, js2 = c01lib.roundtrip_obs(BillingModel, m, sets, {"ignore_disqualification": True})
     # aggregated predictions go through the same reloaded parameters: one more observation
     try:
         a = m.predict(fitlib.billing_reporting(rmeter, rtemp), aggregation="monthly", ignore_disqualification=True)
@@ -139,7 +139,8 @@ def hourly_state_of(m):
         "clusters": [[int(x) for x in row] for row in m._df_temporal_clusters.reset_index().values.tolist()],
         "bin_edges": None if m._T_bin_edges is None else [float(x) for x in m._T_bin_edges],
         "edge_coeffs": None if m._T_edge_bin_coeffs is None else
-        [[int(k), [[kk, float(vv)] for kk, vv in v.items()]] for k, v in m._T_edge_bin_coeffs.items()],
+        [[k if isinstance(k, (int, np.integer)) and not isinstance(k, bool) else repr(k), [[kk, float(vv)] for kk, vv in v.items()]]
+         for k, v in m._T_edge_bin_coeffs.items()],
         "ts_features": list(m._ts_features), "cat_features": list(m._categorical_features),
         "loc": [float(x) for x in np.atleast_1d(loc)], "scale": [float(x) for x in np.atleast_1d(fs.scale_)],
         "y": [float(np.squeeze(yloc)), float(np.squeeze(ys.scale_))],
@@ -167,9 +168,9 @@ def job_hourly(job):
     sets = [("continuation", lambda: fitlib.hourly_reporting(rf.copy())),
             ("outside-range", lambda: fitlib.hourly_reporting(_stretch(rf, -45.0, 135.0))),
             ("baseline", lambda: fitlib.hourly_baseline(hf.copy()))]
-    obs, js, m2 = c01lib.roundtrip_obs(HourlyModel, m, sets, {"ignore_disqualification": True})
-    state2 = hourly_state_of(m2) if m2 is not None else None
-    return {"state": state, "state2": state2, "js": js, "obs": obs, "solar": solar, "n_coef": sum(len(r) for r in state["coef"])}
+    obs, js, m2, js2 = c01lib.roundtrip_obs(HourlyModel, m, sets, {"ignore_disqualification": True}, snapshot=hourly_state_of)
+    state2 = obs.pop("_state2", None)
+    return {"state": state, "state2": state2, "js": js, "js2": js2, "obs": obs, "solar": solar, "n_coef": sum(len(r) for r in state["coef"])}
 
 
 # ----------------------------------------------------------------------------------------------------- CalTRACK hourly
@@ -223,9 +224,9 @@ def job_caltrack(job):
     sets = [("continuation", lambda: fitlib.caltrack_reporting(rf.copy())),
             ("outside-range", lambda: fitlib.caltrack_reporting(_stretch(rf, -45.0, 135.0))),
             ("no-observed", lambda: fitlib.caltrack_reporting(rf_noobs.copy()))]
-    obs, js, m2 = c01lib.roundtrip_obs(CTModel, m, sets, {})
-    state2 = caltrack_state_of(m2) if m2 is not None else None
-    return {"state": state, "state2": state2, "js": js, "obs": obs}
+    obs, js, m2, js2 = c01lib.roundtrip_obs(CTModel, m, sets, {}, snapshot=caltrack_state_of)
+    state2 = obs.pop("_state2", None)
+    return {"state": state, "state2": state2, "js": js, "js2": js2, "obs": obs}
 
 
 JOBS = {"daily": job_daily, "billing": job_billing, "hourly": job_hourly, "caltrack": job_caltrack}
